@@ -14,7 +14,7 @@ RERECORD_ON_SHRINK = True
 MINIMISE_BUDGET_S = 90.0
 
 TIERS = {
-    'quick': {'runs': 3840, 'budget_s': 55, 'batch': 16},
+    'quick': {'runs': 2048, 'budget_s': 240, 'batch': 16},
     'thorough': {'runs': 120000, 'budget_s': 900, 'batch': 32},
 }
 
